@@ -187,7 +187,53 @@ def cases(tier, seed, i, n):
             for r in range(4 if tier == 'quick' else 10):
                 yield dict(kind='var', src='long', li=li, seg='random', cutseed=seed * 1000 + r, seed=seed, tier=tier)
             yield dict(kind='var', src='long', li=li, seg='prefix-bytewise', cutseed=0, seed=seed, tier=tier)
+        # (v) through an HTTP proxy: the received byte stream is the proxy's answer followed by whatever the far end
+        # sends; a far end (or a front-end load balancer) that answers without waiting for the request puts its
+        # bytes right behind the proxy's answer, possibly in the same read
+        for ei in range(len(PROXY_EARLY)):
+            for cs in ('none', 'after-proxy-reply', 'mid-proxy-reply', 'mid-early', 'bytewise', 'both-sides'):
+                yield dict(kind='proxy', ei=ei, cs=cs)
     return gen.shard(allcases(), i, n)
+
+
+PROXY_REPLY = b'HTTP/1.1 200 Connection established\r\nVia: 1.1 px\r\n\r\n'
+PROXY_EARLY = [
+    b'HTTP/1.1 503 Service Unavailable\r\nRetry-After: 5\r\n\r\n',
+    b'HTTP/1.1 101 Switching Protocols\r\nUpgrade: websocket\r\nConnection: Upgrade\r\nSec-WebSocket-Accept: AAAAAAAAAAAAAAAAAAAAAAAAAAA=\r\n\r\n' + F(1, b'hi'),
+    b'\x00\x01garbage that is not http\r\n\r\n',
+    b'HTTP/1.1 400 Bad Request\r\n',
+]
+_PREF = {}
+
+
+def observe_proxy(early, cuts):
+    from .. import simnet
+    w = H.World(lambda _i: simnet.ScriptServer([('proxy', PROXY_REPLY + early), ('eof',)]), cuts=cuts)
+    run = H.drive(w, ws_kwargs=dict(proxies={'http': 'http://proxy.local:3128'}), connect_kwargs=dict(ping_rate=0))
+    reqs, frames, residue, errors = H.client_frames(w.conns[0], 2) if w.conns else ([], [], b'', [])
+    return dict(events=run.normed(), end=run.end, exc=run.exc, frames=H.frame_sig(frames), residue=residue, nreq=len(reqs),
+                closed=[s.closed for s in w.socks])
+
+
+def run_proxy(case, acc):
+    early = PROXY_EARLY[case['ei']]
+    n1, n2 = len(PROXY_REPLY), len(early)
+    cuts = {'none': None, 'after-proxy-reply': [n1], 'mid-proxy-reply': [n1 // 2], 'mid-early': [n1 + max(1, n2 // 2)],
+            'bytewise': 'all', 'both-sides': [n1 - 1, n1 + 1]}[case['cs']]
+    if case['ei'] not in _PREF:
+        _PREF[case['ei']] = observe_proxy(early, [n1])       # reference: the far end's bytes arrive in a read of their own
+    ref = _PREF[case['ei']]
+    obs = observe_proxy(early, cuts)
+    acc.count2('oracle', 'variant_runs_compared')
+    acc.count2('oracle', 'proxy_stream_runs_compared')
+    acc.executed()
+    if obs != ref:
+        diff = [k for k in obs if obs[k] != ref[k]]
+        acc.violation('segmentation-changes-' + '+'.join(diff) + ':bytes-in-the-same-read-as-the-proxy-answer',
+                      'C02 proxy answer + %r..., cuts %s' % (early[:24], case['cs']), case,
+                      dict(reference={k: ref[k] for k in diff}, variant={k: obs[k] for k in diff}))
+    else:
+        acc.cls('proxy/%d/%s' % (case['ei'], case['cs']))
 
 
 _LONG = {}
@@ -251,6 +297,8 @@ def compare(acc, case, st, cuts, label):
 
 def run_case(case, acc):
     k = case['kind']
+    if k == 'proxy':
+        return run_proxy(case, acc)
     if k == 'exh':
         st = catalogue()[case['si']]
         hl = hs_len_of(st)
